@@ -1,6 +1,7 @@
 #!/bin/bash
 # usage: tools/tryseed.sh <seed id> <PROP> [tier]  -- applies seeded/<id>/patch.diff to /repo, runs the check, restores /repo and the evidence
 ID=$1; P=$2; T=${3:-quick}
+if [ -n "$(git -C /repo status --short)" ]; then echo "refusing: /repo has uncommitted changes (they would be reverted)"; exit 8; fi
 cd /repo && (git apply /verif/seeded/$ID/patch.diff 2>/dev/null || patch -p1 -F3 --no-backup-if-mismatch < /verif/seeded/$ID/patch.diff >/dev/null) || { echo "patch does not apply"; exit 9; }
 cd /verif; ./check $P --tier $T 2>&1 | grep -v "^KNOWN" | tail -${4:-4} | cut -c1-300
 cd /repo && git checkout -- . && git status --short | head -3
